@@ -543,9 +543,10 @@ Fixpoint endtags (s : str) (i : nat) (fh lb : option nat) : option nat * option 
 
 Definition insert_at (i : nat) (x s : str) : str := firstn i s ++ x ++ skipn i s.
 
-(* _insert_js_css_to_default_locations (after fix fa2cce9); None content = "do not insert" *)
-Definition insert_default (html : str) (js css : option str) : str :=
-  let '(fh0, lb0) := endtags html 0 None None in
+(* _insert_js_css_to_default_locations (after fixes fa2cce9, b234f8a); None content = "do not insert".
+   The end tags are searched in `search` (same length as `html`), the insertions are made in `html`. *)
+Definition insert_default (search html : str) (js css : option str) : str :=
+  let '(fh0, lb0) := endtags search 0 None None in
   let fh := match css with Some _ => fh0 | None => None end in
   let lb := match js with Some _ => lb0 | None => None end in
   let '(html1, off) := match css, fh with
@@ -562,22 +563,125 @@ Definition insert_default (html : str) (js css : option str) : str :=
   | _, _ => html1
   end.
 
+Definition block (k : kind) (js css : str) : str := match k with KJs => js | KCss => css end.
+
+(* PLACEHOLDER_REGEX.sub(on_replace_match, content) on the scanned items, and the copy in which the
+   inserted parts are blanked out (b"\x00" * len(replacement)) *)
+Definition subst_items (l : list (item kind)) (js css : str) : str :=
+  flat_map (fun it => match it with Ch c => [c] | Hit k => block k js css end) l.
+Definition mask_items (l : list (item kind)) (js css : str) : str :=
+  flat_map (fun it => match it with Ch c => [c] | Hit k => repeat 0 (length (block k js css)) end) l.
+Definition has_hit (k : kind) (l : list (item kind)) : bool :=
+  existsb (fun it => match it with Hit k' => kind_eqb k k' | Ch _ => false end) l.
+
 Definition subst_placeholders (s js css : str) : str * bool * bool :=
-  let l := scan match_placeholder s 0 in
-  (flat_map (fun it => match it with Ch c => [c] | Hit KJs => js | Hit KCss => css end) l,
-   existsb (fun it => match it with Hit KJs => true | _ => false end) l,
-   existsb (fun it => match it with Hit KCss => true | _ => false end) l).
+  let l := scan match_placeholder s 0 in (subst_items l js css, has_hit KJs l, has_hit KCss l).
 
 (* render_dependencies with the serialised tag strings given (js_b, css_b = the two byte strings
    _process_dep_declarations returns); content = the marker-free content *)
 Definition assemble (t : rtype) (content js_b css_b : str) : str :=
+  let l := scan match_placeholder content 0 in
   match t with
   | Document =>
-      let '(c1, found_js, found_css) := subst_placeholders content js_b css_b in
-      insert_default c1 (if found_js then None else Some js_b) (if found_css then None else Some css_b)
-  | Fragment =>
-      let '(c1, _, _) := subst_placeholders content [] [] in c1 ++ js_b
+      insert_default (mask_items l js_b css_b) (subst_items l js_b css_b)
+                     (if has_hit KJs l then None else Some js_b) (if has_hit KCss l then None else Some css_b)
+  | Fragment => subst_items l [] [] ++ js_b
   end.
+
+(* render_dependencies as a whole, for a serialisation `ser` of the structured tags (Django's
+   Media.render_*, wrap_component_js/css, json + base64 of the loader script are not modelled) *)
+Definition ser_all (ser : tok -> str) (l : list tok) : str := concat (map ser l).
+Definition render_deps (ser : tok -> str) (tbl : table) (t : rtype) (content : str) : res str :=
+  rbind (process tbl t content) (fun cd => Ok (assemble t (fst cd) (ser_all ser (d_js (snd cd))) (ser_all ser (d_css (snd cd))))).
+
+(* ---------------------------------------------------------------------------------------- *)
+(* vocabulary of the theorems about the assembled output                                     *)
+(* ---------------------------------------------------------------------------------------- *)
+(* a placeholder as it reaches render_dependencies *)
+Record phspec := { ph_kind : kind; ph_css : option str; ph_ids : list str; ph_slash : bool }.
+Definition ph_bytes (p : phspec) : str := emit_placeholder (ph_kind p) (ph_css p) (ph_ids p) (ph_slash p).
+Definition ph_wfb (p : phspec) : bool :=
+  forallb is_word6 (match ph_css p with Some c => c :: ph_ids p | None => ph_ids p end).
+Definition ph_wf (p : phspec) : Prop := ph_wfb p = true.
+
+(* a marker-free document: text, placeholder, text, placeholder, ..., text *)
+Fixpoint phdoc_bytes (d : list (str * phspec)) (tail : str) : str :=
+  match d with
+  | [] => tail
+  | (t, p) :: r => t ++ ph_bytes p ++ phdoc_bytes r tail
+  end.
+Definition phdoc_text (d : list (str * phspec)) (tail : str) : str := concat (map fst d) ++ tail.
+(* every text piece is free of "_PLACEHOLDER", every placeholder carries \w{6} attribute values *)
+Definition ph_pieces_ok (d : list (str * phspec)) (tail : str) : Prop :=
+  Forall (fun tp : str * phspec => ph_clean (fst tp) /\ ph_wf (snd tp)) d /\ ph_clean tail.
+
+(* text pieces with a block after each *)
+Fixpoint weave (d : list (str * str)) (tail : str) : str :=
+  match d with
+  | [] => tail
+  | (t, b) :: r => t ++ b ++ weave r tail
+  end.
+Definition phdoc_blocks (d : list (str * phspec)) (js css : str) : list (str * str) :=
+  map (fun tp : str * phspec => (fst tp, block (ph_kind (snd tp)) js css)) d.
+Definition phdoc_subst (d : list (str * phspec)) (tail js css : str) : str := weave (phdoc_blocks d js css) tail.
+Definition phdoc_mask (d : list (str * phspec)) (tail js css : str) : str :=
+  weave (map (fun tp : str * phspec => (fst tp, repeat 0 (length (block (ph_kind (snd tp)) js css)))) d) tail.
+Definition count_kind (k : kind) (d : list (str * phspec)) : nat :=
+  length (filter (fun tp : str * phspec => kind_eqb k (ph_kind (snd tp))) d).
+Definition has_kind (k : kind) (d : list (str * phspec)) : bool :=
+  existsb (fun tp : str * phspec => kind_eqb k (ph_kind (snd tp))) d.
+
+(* number of occurrences of the byte string x in s (x <> []) *)
+Fixpoint occ (x s : str) : nat :=
+  match s with
+  | [] => O
+  | _ :: r => ((if starts_with x s then 1 else 0) + occ x r)%nat
+  end.
+
+(* how many copies of the block of kind k document mode writes: one per placeholder of the kind; with
+   no placeholder, one if the document has a </head> (CSS) / </body> (JS) end tag, else none *)
+Definition found_endtag (k : kind) (search : str) : bool :=
+  let '(fh, lb) := endtags search 0 None None in
+  match k with
+  | KCss => match fh with Some _ => true | None => false end
+  | KJs => match lb with Some _ => true | None => false end
+  end.
+Definition copies (k : kind) (d : list (str * phspec)) (search : str) : nat :=
+  match count_kind k d with
+  | O => if found_endtag k search then 1%nat else O
+  | n => n
+  end.
+
+(* a generated block: nothing, or a run of tags "<...>" *)
+Definition tagged (b : str) : Prop := b = [] \/ exists m, b = 60 :: m ++ [62].
+(* no occurrence of x can start inside b and run out of it: no proper non-empty prefix of x is a suffix of b *)
+Definition right_free (x b : str) : Prop :=
+  forall u v b', x = u ++ v -> u <> [] -> v <> [] -> b <> b' ++ u.
+(* x has no "<" after its first byte: no occurrence of x can start before a "<" and run over it *)
+Definition lt_free (x : str) : Prop := ~ In 60 (tl x).
+(* what the occurrence count needs of a block: it is empty, or it starts with "<" and no occurrence of x runs out of it *)
+Definition iso (x b : str) : Prop := b = [] \/ ((exists m, b = 60 :: m) /\ right_free x b).
+(* decidable form of right_free *)
+Fixpoint prefixes (x : str) : list str :=
+  match x with [] => [[]] | c :: r => [] :: map (cons c) (prefixes r) end.
+Definition right_freeb (x b : str) : bool :=
+  forallb (fun u => negb (nonempty u) || str_eqb u x || negb (ends_with u b)) (prefixes x).
+
+(* the searched text has an end tag of kind e somewhere *)
+Definition has_tag (e : endtag) (s : str) : Prop := exists j n, match_endtag (skipn j s) = Some (e, n).
+(* what the occurrence count needs of the serialisation of the tags: each tag starts with "<" and no
+   occurrence of x runs out of a tag *)
+Definition ser_ok (x : str) (ser : tok -> str) (toks : list tok) : Prop :=
+  forall t, In t toks -> (exists m, ser t = 60 :: m) /\ right_free x (ser t).
+Definition ser_okb (x : str) (ser : tok -> str) (toks : list tok) : bool :=
+  forallb (fun t => match ser t with c :: _ => (c =? 60) && right_freeb x (ser t) | [] => false end) toks.
+
+(* boolean forms of the hypotheses, for the correspondence run *)
+Definition cleanb (s : str) : bool := negb (contains marker_word s).
+Definition ph_cleanb (s : str) : bool := negb (contains ph_word s).
+Definition wf_partb (p : part) : bool :=
+  let '(h, id, js, css) := p in
+  nonempty h && forallb is_hashb h && nonempty id && forallb is_word id && forallb is_hex js && forallb is_hex css.
 
 (* ---------------------------------------------------------------------------------------- *)
 (* correspondence cases                                                                      *)
@@ -657,3 +761,16 @@ Definition check_emit (c : emit_case) : bool :=
   | Ok ps => list_eqb str_eqb hs (map p_hash ps)
   | _ => false
   end.
+
+(* 5. hypotheses of the theorems on a rendered page.  (a) emit side: the content handed to
+   render_dependencies IS text, marker, ..., text with the markers insert_component_dependencies_comment was
+   called with (recorded by the harness, one call per rendered instance), text free of "_RENDERED", records
+   well formed; (b) the marker-free text IS text, placeholder, ..., text with text free of "_PLACEHOLDER". *)
+Definition doc_case := (str * list (str * (str * str * str * str)) * str)%type.
+Definition check_doc (c : doc_case) : bool :=
+  let '(content, d, tail) := c in
+  str_eqb content (doc_bytes d tail) && cleanb (doc_text d tail) && forallb wf_partb (doc_parts d).
+Definition phdoc_case := (str * list (str * phspec) * str)%type.
+Definition check_phdoc (c : phdoc_case) : bool :=
+  let '(content, d, tail) := c in
+  str_eqb content (phdoc_bytes d tail) && ph_cleanb (phdoc_text d tail) && forallb ph_wfb (map snd d).
